@@ -96,7 +96,8 @@ structure MutMeta where
 deriving Repr
 
 /-- `process_mutation` for a variant entry: loaded mutation and its metadata, `none` when the
-position is unmapped or outside every named region -/
+position is unmapped, outside every named region or (when the loader checks it) the replaced bases
+are not contiguous on the genome -/
 def processVariant (db : RawDb) (maps : Maps) (regs : List (List Region)) (pos1 : Int) (op rsid : String)
     (function : Option String) : Option MutMeta :=
   let k := parseOp op.toList
@@ -105,6 +106,7 @@ def processVariant (db : RawDb) (maps : Maps) (regs : List (List Region)) (pos1 
   | none => none
   | some g =>
     if (regionAtDb regs g).isNone then none
+    else if Const.LOADER_CHECKS_CONTIGUITY && !spanContiguous maps (p - 1) g k' then none
     else some ⟨⟨g, String.ofList (renderOp k')⟩, function, rsid, p - 1, pos1 - 1, op⟩
 
 /-- first-wins metadata table (`self.mutations.setdefault`) -/
